@@ -629,8 +629,8 @@ def to_str(a):
     return str(a)
 
 
-def opaque_text(tag="text", maxlen=6):
+def opaque_text(tag="text", maxlen=6, alphabet=None):
     """an arbitrary short text (for messages whose content no oracle relies on)"""
     eng = E.current()
     eng.fresh_n += 1
-    return StrVec.fresh("opaque.%s!%d" % (tag, eng.fresh_n), maxlen)
+    return StrVec.fresh("opaque.%s!%d" % (tag, eng.fresh_n), maxlen, 0, alphabet)
